@@ -139,3 +139,45 @@ def find_variant_switches(body, adt):
         if v and v[1] == adt:
             out.append(i)
     return out
+
+
+def handle_stream_body(ctx, F):
+    """server::handle_stream's coroutine with the private (async) helpers of server.rs it is split into looked through"""
+    hs0 = F.one_body(r"^selium_server::server::handle_stream::\{closure#0\}$")
+    ctx.touch(hs0)
+    return F.inlined(hs0, only=("selium_server::server::",))
+
+
+WAKES = ("core::task::wake::Waker::wake_by_ref", "core::task::wake::Waker::wake")
+
+
+def pending_discipline(ctx, F, body0, prefix, label):
+    """A hand-written poll function may answer Pending only if a wake-up has been arranged during this very call: every path to a
+    `Poll::Pending` it builds itself passes through the Pending arm of a child poll made in this call (the child registered the waker)
+    or through a `wake_by_ref`. Evaluated on the body with its local helpers inlined. Returns the number of Pending sites examined."""
+    from ..facts import strip_generics
+    b = F.inlined(body0)
+    retl = {0}
+    grew = True
+    while grew:
+        grew = False
+        for i, j, pl, rv, s in b.assigns():
+            if pl["l"] in retl and not pl["p"] and rv["k"] == "use" and rv["op"].get("k") in ("copy", "move") and not rv["op"]["pl"]["p"] and rv["op"]["pl"]["l"] not in retl:
+                retl.add(rv["op"]["pl"]["l"])
+                grew = True
+    arranged = set()
+    for c in b.calls():
+        if strip_generics(c.callee) in WAKES:
+            arranged.add(c.bb)
+        elif c.dest is not None and b.local_ty(c.dest["l"]).startswith("core::task::poll::Poll<"):
+            m = flow.switch_after_call(b, c)
+            if m and "Pending" in m:
+                arranged.add(m["Pending"])
+    n = 0
+    for i, j, pl, rv, s in b.assigns():
+        if rv["k"] == "agg" and rv.get("adt") == "core::task::poll::Poll" and rv.get("variant") == "Pending" and pl["l"] in retl and not b.blocks[i].get("cleanup"):
+            n += 1
+            ok = i in arranged or i not in flow.reach_avoiding(b, [0], arranged)
+            ctx.check(ok, prefix, "pending-without-waker:%s#%d" % (label, n),
+                      "%s answers Pending only after a child poll of this call returned Pending or after waking itself" % label, s["span"])
+    return n
